@@ -277,6 +277,102 @@ def o_history(case):
 
 # ------------------------------------------------------------------------------------------ strategies
 
+# ------------------------------------------------------------------ digests as script execution uses them
+
+def o_executed(case):
+    """the digest that reaches signature verification while a spend is validated: generator.verify is wrapped for the
+    duration of the call and every (digest, r, s) it receives is compared with the digest the reference interpreter
+    computes when it checks that same signature"""
+    from oracles import refvm as V
+    sp = A.assemble_spend(case)
+    tx0, n_in, amount = sp["tx"], sp["n_in"], sp["amount"]
+    checker = V.TxChecker(tx0, n_in, amount)
+    verdict, err, ctx = V.run_verify(sp["script_sig"], sp["spk"], sp["witness"], case["flags"], checker)
+    T = TX[case.get("coin", "btc")]
+    txs_in = []
+    for i in tx0["ins"]:
+        ti = T.TxIn(i["prev_hash"], i["prev_index"], i["script"], i["sequence"])
+        ti.witness = list(i.get("witness") or [])
+        txs_in.append(ti)
+    tx = T(tx0["version"], txs_in, [T.TxOut(o["value"], o["script"]) for o in tx0["outs"]], tx0["locktime"],
+           unspents=[T.TxOut(amount if k == n_in else 0, sp["spk"] if k == n_in else b"\x51") for k in range(len(txs_in))])
+    g = BTC.generator
+    N = g.order()
+    calls = []
+    real = type(g).verify
+
+    def spy(public_pair, val, sig):
+        calls.append((val, sig[0], sig[1]))
+        return real(g, public_pair, val, sig)
+    g.verify = spy
+    try:
+        try:
+            tx.check_solution(n_in, flags=case["flags"])
+        except ScriptError:
+            pass
+    finally:
+        del g.verify
+    ref = {}
+    for r, s, ht, z in checker.sig_checks:
+        ref.setdefault((r, s), set()).add(z)
+    compared = 0
+    for z, r, s in calls:
+        exp = ref.get((r, min(s, N - s)))
+        if exp is None:
+            continue        # a (signature, key) pairing the reference interpreter did not need to try
+        compared += 1
+        if z not in exp:
+            raise Violation("sighash:executed-digest",
+                            "while validating scriptSig=%s scriptPubKey=%s witness=%s flags=0x%x (%s), signature r=%x.. was verified "
+                            "against digest %064x; the reference interpreter computes %s for it" % (
+                                sp["script_sig"].hex()[:200], sp["spk"].hex()[:200], [w.hex()[:60] for w in sp["witness"]], case["flags"],
+                                _short_tx(tx0, n_in), r >> 200, z, sorted("%064x" % e if e is not None else "none" for e in exp)))
+    labels = ["shape=" + case["shape"], "compared=%d" % min(compared, 4), "ref=" + str(verdict)]
+    if compared >= 2 and len({z for z, _r, _s in calls}) >= 2:
+        labels.append("distinct-digests")
+    if V.OP_CODESEPARATOR in ctx.executed:
+        labels.append("codesep")
+    if any(t[0] == "sig" for t in case["lock"]):
+        labels.append("embedded-sig")
+    return labels
+
+
+def _short_tx(tx0, n_in):
+    return "version=%d locktime=%d n_in=%d/%d outs=%d" % (tx0["version"], tx0["locktime"], n_in, len(tx0["ins"]), len(tx0["outs"]))
+
+
+def s_executed():
+    from gen.common import weighted
+    OPC, OPD, OPS, OP1 = ["op", 0xac], ["op", 0x75], ["op", 0xab], ["n", 1, "opn"]
+
+    def multi(items, ctx, flags, shape):
+        # several CHECKSIG DROP statements in one script: each signature comes from the unlocking side or is pushed by the
+        # lock itself (legacy FindAndDelete removes it from the hashed code), optionally after a further code separator
+        lock, stack_sigs, cs = [], [], 0
+        for k, ht, src, var, sep in items:
+            if sep:
+                lock.append(OPS)
+                cs += 1
+            tok = ["sig", k, ht, var, cs]
+            if src == "emb":
+                lock.append(tok)
+            else:
+                stack_sigs.append(tok)
+            lock += [["key", k, "c"], OPC, OPD]
+        lock.append(OP1)
+        return dict(ctx, kind="spend", shape=shape, lock=lock, unlock=stack_sigs[::-1], flags=flags, mut=[])
+    ht = st.sampled_from([1, 1, 1, 2, 3, 0x81, 0x83])
+    item = st.tuples(st.integers(0, 5), ht, st.sampled_from(["stack", "stack", "emb"]), st.sampled_from(["ok", "ok", "wrongmsg"]),
+                     st.sampled_from([False, False, False, True]))
+    flags = st.one_of(st.sampled_from([0, G.V.P2SH, G.V.P2SH | G.V.WITNESS, G.CONSENSUS]), G.flagsets())
+    shapes = st.sampled_from(["bare", "bare", "p2sh", "p2wsh", "p2sh-p2wsh"])
+    m = st.builds(multi, st.lists(item, min_size=2, max_size=4), G.contexts(), flags, shapes)
+    templ = st.builds(lambda lu, ctx, fl, shape: dict(ctx, kind="spend", shape=shape, lock=lu[0], unlock=lu[1], flags=fl, mut=[]),
+                      G.lock_templates(), G.contexts(), flags, shapes)
+    coin = st.sampled_from(["btc", "btc", "ltc"])
+    return st.builds(lambda c, coin: dict(c, coin=coin), weighted((3, m), (1, templ)), coin)
+
+
 def _wellformed_codes():
     # script codes from the C03 grammar without raw / truncated material
     def clean(tokens):
@@ -351,5 +447,14 @@ SUBCHECKS = [
     SubCheck("legacy_closure", o_closure, strategy=s_closure, budget=(2500, 200000), nontrivial=nt,
              rule="the sighash function handed to the VM (BTC/LTC/GRS legacy digest; BCH/BTG fork-id digest with later code separators kept): script sliced at a generated code-separator position, generated signature blobs (pushes present in the script, in any encoding, and absent ones) removed as consensus FindAndDelete does, digest equals the reference; non-trivial as above or a blob was actually removed"),
 ]
+
+SUBCHECKS.append(
+    SubCheck("executed_digests", o_executed, strategy=s_executed, budget=(2500, 150000),
+             nontrivial=lambda c, l: "distinct-digests" in l,
+             rule="spends (bare / P2SH / P2WSH / P2SH-P2WSH; BTC and LTC) whose script runs 2-4 CHECKSIG operations with signatures "
+                  "supplied by the unlocking side or pushed by the script itself, equal and different hash types, code separators in "
+                  "between, plus the signature-bearing lock templates of C03; generator.verify is wrapped while check_solution runs and "
+                  "every digest it receives must be the one the reference interpreter computes for that signature at that operation; "
+                  "non-trivial = at least two signatures compared and at least two distinct digests"))
 
 FUZZ = {"legacy_closure": 20000, "checker_history": 20000}
